@@ -40,6 +40,13 @@ BAD_STR = {
     "cell_justification": ["x", "left", "C", "centre"],
     "cell_vertical_justification": ["middle", "Top", "centre", "t"],
 }
+# a legal keyword decorated with white space is NOT in the legal set either (regex '$' and str.strip()
+# are classic ways to let "b\n" or " red" through)
+VALID_TOKEN = {"text_color": "red", "text_background_color": "blue", "text_format": "b", "text_justification": "l",
+               "border": "single", "border_color": "red", "cell_justification": "c",
+               "cell_vertical_justification": "top"}
+for _k, _v in VALID_TOKEN.items():
+    BAD_STR[_k] = BAD_STR[_k] + [_v + "\n", _v + " ", " " + _v, _v + "\t", "\n" + _v, _v + "\r\n"]
 BAD_FONT = [0, 11, -1, 99, 12]
 BAD_NONPOS_INT = [0, -1, -15]
 BAD_NONPOS_FLOAT = [0, 0.0, -0.5, -1, -2.25]
@@ -143,10 +150,10 @@ def gen_page_case(rng):
     if rng.random() < 0.5:
         kw["orientation"] = rng.choice(["portrait", "landscape"])
     if r < 0.15:
-        field, val = "orientation", rng.choice(["diagonal", "Portrait", "", "horizontal"])
+        field, val = "orientation", rng.choice(["diagonal", "Portrait", "", "horizontal", "portrait\n", " landscape"])
     elif r < 0.4:
         field = rng.choice(["page_title", "page_footnote", "page_source"])
-        val = rng.choice(["middle", "First", "none", "every", ""])
+        val = rng.choice(["middle", "First", "none", "every", "", "all\n", " first", "last "])
     elif r < 0.6:
         field = rng.choice(["border_first", "border_last"])
         val = rng.choice(BAD_STR["border"])
@@ -167,7 +174,7 @@ def gen_page_case(rng):
 
 def gen_body_case(rng):
     if rng.random() < 0.5:
-        kw = {"pageby_row": rng.choice(["row", "Column", "first", ""])}
+        kw = {"pageby_row": rng.choice(["row", "Column", "first", "", "column\n", " first_row"])}
         if rng.random() < 0.5:
             kw["page_by"] = ["N0"]
         d = {"cls": "RTFBody", "field": "pageby_row", "bad": kw["pageby_row"]}
@@ -184,10 +191,10 @@ def gen_body_case(rng):
 def gen_figure_case(rng):
     r = rng.random()
     if r < 0.35:
-        return {"cls": "RTFFigure", "kw": {"figures": "@FIG", "fig_align": rng.choice(["middle", "Center", "justify", ""])},
+        return {"cls": "RTFFigure", "kw": {"figures": "@FIG", "fig_align": rng.choice(["middle", "Center", "justify", "", "center\n", " left"])},
                 "desc": {"cls": "RTFFigure", "field": "fig_align"}, "n": 2, "expect": "ValueError"}
     if r < 0.7:
-        return {"cls": "RTFFigure", "kw": {"figures": "@FIG", "fig_pos": rng.choice(["above", "Before", "below", ""])},
+        return {"cls": "RTFFigure", "kw": {"figures": "@FIG", "fig_pos": rng.choice(["above", "Before", "below", "", "after\n", " before"])},
                 "desc": {"cls": "RTFFigure", "field": "fig_pos"}, "n": 2, "expect": "ValueError"}
     k = rng.randint(1, 3)
     figs = ["@FIG"] * k
